@@ -18,11 +18,22 @@ def main():
         res = {"id": rec["id"], "out": "", "exc": None, "exc_msg": None, "exit": None, "tb_file": None}
         buf = io.StringIO()
         try:
-            data = open(rec["pyc"], "rb").read()
-            code = marshal.loads(data[16:])
+            if "py_src" in rec:
+                # a transpiled script: it must first of all be valid Python for this interpreter
+                try:
+                    code = compile(open(rec["py_src"], encoding="utf-8").read(), rec["py_src"], "exec")
+                except (SyntaxError, ValueError) as e:
+                    res["exc"] = "InvalidPython"
+                    res["exc_msg"] = ("%s: %s" % (type(e).__name__, e))[:300]
+                    real_out.write(json.dumps(res) + "\n")
+                    real_out.flush()
+                    continue
+            else:
+                data = open(rec["pyc"], "rb").read()
+                code = marshal.loads(data[16:])
             sys.stdout = buf
             try:
-                exec(code, {"__name__": "__main__", "__file__": rec["pyc"]})
+                exec(code, {"__name__": "__main__", "__file__": rec.get("pyc") or rec.get("py_src")})
             finally:
                 sys.stdout = real_out
         except SystemExit as e:
